@@ -435,8 +435,25 @@ class HistoryGen:
                 # keep values small: they must stay exact in float32
                 if max(max(b) if b else 0 for b in sh.bufs) > 20000:
                     continue
+                kk = r.choice([2, 3, 2, 3, 1, 0])
+                if 'SET' in kinds and r.random() < 0.35 and not getattr(sh.arrs[j], 'short', False):
+                    # fixed-point operands: the operation leaves SOME destination elements exactly as they were (the first, the
+                    # last, both, or all of them) - a value-dependent shortcut ("nothing changed, skip the store") shows only there
+                    first, last = [0] * len(a.shape), [d - 1 for d in a.shape]
+                    where = r.choice([[first], [last], [first, last], list(enum(a.shape))])
+                    for loc in where[:12]:
+                        v = r.randint(1, 40)
+                        if k == 'ADDTO':
+                            self.emit('SET %d L %s V 0' % (j, ints(loc)), sh.op_set(j, loc, 0))
+                        elif j != i:
+                            self.emit('SET %d L %s V %d' % (j, ints(loc), v), sh.op_set(j, loc, v))
+                            dv = v * kk if k == 'SCALE' else v * 2 + 1
+                            self.emit('SET %d L %s V %d' % (i, ints(loc), dv), sh.op_set(i, loc, dv))
+                        elif k == 'SCALE':
+                            self.emit('SET %d L %s V 0' % (j, ints(loc)), sh.op_set(j, loc, 0))
+                    if self.diverged:
+                        continue
                 if k == 'SCALE':
-                    kk = r.choice([2, 3])
                     self.emit('SCALE %d %d %d' % (i, j, kk), sh.op_elementwise(i, j, lambda d, s: s * kk))
                 elif k == 'ADDTO':
                     self.emit('ADDTO %d %d' % (i, j), sh.op_elementwise(i, j, lambda d, s: d + s))
